@@ -4,6 +4,7 @@ package main
 // re-checked individually by racing z3-new, z3 4.8.12 and cvc5.
 
 import (
+	"runtime"
 	"os"
 	"bytes"
 	"context"
@@ -19,6 +20,27 @@ type solverCfg struct {
 	workers   int
 	thorough  bool
 }
+
+// loadScale: solver time limits are wall-clock; on a machine that is busy with other work (several checks
+// running side by side) they are stretched by the ratio of runnable tasks to cores, so that an obligation
+// that needs 0.3 s of CPU is not reported as undecided because it got a tenth of a core.
+var loadScale = func() int {
+	b, err := os.ReadFile("/proc/loadavg")
+	if err != nil {
+		return 1
+	}
+	var l1 float64
+	fmt.Sscanf(string(b), "%f", &l1)
+	n := float64(runtime.NumCPU())
+	f := int(l1/n + 0.5)
+	if f < 1 {
+		f = 1
+	}
+	if f > 8 {
+		f = 8
+	}
+	return f
+}()
 
 // buildScript renders a chunk of obligations as one incremental script.
 func buildScript(prelude string, decls []string, obs []*Oblig, timeoutMs int) string {
@@ -118,7 +140,7 @@ func (vc *FuncVC) solveAll(all []*Oblig, cfg solverCfg) {
 	if len(covers) > 0 {
 		// raced directly (no incremental phase): one model search per cover, all in parallel
 		ccfg := cfg
-		ccfg.timeoutMs = 1500
+		ccfg.timeoutMs = 1500 * loadScale
 		ccfg.thorough = false
 		prelude := vc.w.prelude()
 		var wg sync.WaitGroup
@@ -213,8 +235,8 @@ func (vc *FuncVC) solveSet(obs []*Oblig, cfg solverCfg) {
 			sem <- struct{}{}
 			defer func() { <-sem }()
 			incTimeout := cfg.timeoutMs
-			if incTimeout > 2500 {
-				incTimeout = 2500 // whatever the incremental pass cannot settle quickly is re-raced one by one with the full timeout
+			if incTimeout > 2500*loadScale {
+				incTimeout = 2500 * loadScale // whatever the incremental pass cannot settle quickly is re-raced one by one with the full timeout
 			}
 			script := buildScript(prelude, decls, chunk, incTimeout)
 			t0 := time.Now()
